@@ -144,6 +144,18 @@ def run_case(case, real_pool=False):
         logfile = os.path.join(tmp, "calls.log") if uses_procs else None
         models.LOG.clear()
         fn = functools.partial(models.record_fn, _xv=(kind, logfile))
+        style = case.get("fn_style", "partial")
+        if style == "closure":
+            # not importable by name: the package's own pools ship such
+            # functions by value
+            def make(k_, l_):
+                def swept(**kw):
+                    return models.record_fn(_xv=(k_, l_), **kw)
+                return swept
+            fn = make(kind, logfile)
+        elif style == "lambda":
+            fn = (lambda k_, l_: lambda **kw: models.record_fn(
+                _xv=(k_, l_), **kw))(kind, logfile)
         combos = spell_combos(args, case["spelling"], case["containers"])
         opts = dict(constants=dict(consts) or None, split=split, flat=flat,
                     verbosity=0)
@@ -308,7 +320,9 @@ def strategy(draw, types=IN_PROCESS, max_args=5):
     spell = draw(st.sampled_from(
         ["dict", "dict", "tuple_pairs", "list_pairs"]
         + (["single_pair"] if len(args) == 1 else [])))
-    conts = [draw(st.sampled_from(gens.container_choice(v))) for _, v in args]
+    conts = [draw(st.sampled_from(gens.container_choice(v) +
+                                  ["iter", "generator", "map"]))
+             for _, v in args]
     if draw(st.sampled_from([False] * 7 + [True])):
         # argument names that the package itself uses for parameters of its
         # helpers (a function being swept over functions has an ``fn``...)
@@ -334,7 +348,13 @@ def strategy(draw, types=IN_PROCESS, max_args=5):
         strat["perm_seed"] = draw(st.integers(0, 10**6))
     if t == "num_workers":
         strat["workers"] = draw(st.sampled_from([2, 3, 1, 3]))
-    case = {"twin": draw(st.booleans()),
+    style = "partial"
+    if t not in ("process_cf", "process_mp"):
+        # (pools handed in by the user pickle by reference: only importable
+        # functions are valid there)
+        style = draw(st.sampled_from(["partial", "partial", "closure",
+                                      "lambda"]))
+    case = {"twin": draw(st.booleans()), "fn_style": style,
             "args": args, "spelling": spell, "containers": conts,
             "constants": consts, "kind": kind, "split": split, "flat": flat,
             "strategy": strat}
